@@ -29,7 +29,7 @@ ASSUMPTIONS = [
     'an injected fault relaxes the oracle for the faulted statement only',
     'pre-emption happens at harness sites (quick) or Python line boundaries inside beanquery (thorough); C code is atomic under the GIL',
 ]
-PROBES = ['switch_after_finalize_same_statement_other_thread', 'switch_inside_compilation', 'switch_between_balance_refs', 'switch_between_balance_refs_other_balance_inflight', 'two_aggregates_interleaved',
+PROBES = ['same_text_both_threads_shared_connection', 'switch_after_finalize_same_statement_other_thread', 'switch_inside_compilation', 'switch_between_balance_refs', 'switch_between_balance_refs_other_balance_inflight', 'two_aggregates_interleaved',
           'shared_connection_overlap', 'fault_in_one_thread_others_running', 'subquery_scan_interleaved',
           'three_threads_all_inflight', 'from_clause_overlap']
 
@@ -122,6 +122,25 @@ def generate(rng, tier, run):
                     op['fault'] = {'kind': 'storage', 'table': rng.choice(['t0', 'postings']), 'row': rng.randint(0, 5)}
             ops.append(op)
         clients.append({'ops': ops})
+    # swarm class "same text": every thread sends the same parameterless statement as text over one
+    # shared connection (what a statement cache keyed on text would see)
+    if rng.random() < 0.3:
+        cand = [i for i, s_ in enumerate(pool) if not s_['types'] and 'bad' not in s_['tags']]
+        if cand:
+            i = rng.choice(cand)
+            for c in clients:
+                for op in c['ops']:
+                    if rng.random() < 0.8:
+                        op.update({'stmt': i, 'mode': 'lit', 'vals': [], 'real_parse': True})
+                        op.pop('fault', None)
+            if rng.random() < 0.8:
+                topology = 'shared'
+                ledgers = ledgers[:1]
+    else:
+        for c in clients:
+            for op in c['ops']:
+                if rng.random() < 0.15:
+                    op['real_parse'] = True
     trace = big and rng.random() < 0.7
     est = sum(len(c['ops']) for c in clients) * (len(t0['rows']) + 14) * (40 if trace else 3)
     return {
@@ -152,6 +171,7 @@ class Sim(sched.ThreadSim):
         super().__init__(*a, **kw)
         self.inflight = [None] * self.n      # tags of the statement each thread is executing
         self.stmt_of = [None] * self.n       # text of that statement
+        self.as_text = [False] * self.n      # handed to execute as a str (real parse inside beanquery)
         self.overlap = False
         self.conn_of = [None] * self.n
 
@@ -164,6 +184,9 @@ class Sim(sched.ThreadSim):
                 self.probes['three_threads_all_inflight'] += 1
             if any(self.conn_of[t] is self.conn_of[me] for t in other_in):
                 self.probes['shared_connection_overlap'] += 1
+                if any(self.conn_of[t] is self.conn_of[me] and self.stmt_of[t] == self.stmt_of[me] and self.as_text[t] and self.as_text[me]
+                       for t in other_in):
+                    self.probes['same_text_both_threads_shared_connection'] += 1
             if 'agg' in mine and any('agg' in self.inflight[t] for t in other_in):
                 self.probes['two_aggregates_interleaved'] += 1
             if 'subq' in mine:
@@ -254,6 +277,7 @@ def execute(case, keep_log=False):
                         arg = text
                     S.inflight[tid] = st['tags'] or ['plain']
                     S.stmt_of[tid] = text
+                    S.as_text[tid] = isinstance(arg, str)
                     S.arm(tid, op.get('fault'))
                     got = outcome(conn, arg, params)
                     fired = S.disarm(tid)
